@@ -470,6 +470,12 @@ impl Writer {
                         let data_idx = cqe.user_data() as usize;
                         let expected_bytes = buffers.get(data_idx).map(|b| b.len()).unwrap_or(0);
                         let result = cqe.result();
+                        #[cfg(walrus_verif)]
+                        let result = if crate::wal::verif::fault("uring_cqe") {
+                            -5
+                        } else {
+                            result
+                        };
 
                         if result < 0 {
                             all_success = false;
